@@ -25,12 +25,18 @@ package resolver
 //@   note C08: the lease is anchored at ONE clock reading taken before validation; it is at most that instant plus the referral's minimum NS TTL, and (when a DS is retained) plus the DS set's minimum TTL; the stored deadline is the minimum of that lease and the inherited ancestor cut; it reaches the delegation cache, the provisional NS-lookup entry and the answer-cache sink verbatim
 //@   assert at call middleware/resolver.minCut#1: arg0 == rs.cutDeadline && arg1 == rs.cutKey && arg3 == key
 //@   assert at call middleware/resolver.minCut#1: nsInfo.nsTTL <= 2147483647 ==> inst(arg2) <= inst(lastret("time.Now")) + int64(nsInfo.nsTTL) * 1000000000
-//@   assert at call middleware/resolver.minCut#1: len(rs.parentDS) > 0 && lastret("middleware/resolver.minRRSetTTL") <= 2147483647 ==> inst(arg2) <= inst(lastret("time.Now")) + int64(lastret("middleware/resolver.minRRSetTTL")) * 1000000000
+//@   assert at call middleware/resolver.minCut#1: len(rs.parentDS) > 0 && lastret("middleware/resolver.minRRSetTTL#1") <= 2147483647 ==> inst(arg2) <= inst(lastret("time.Now")) + int64(lastret("middleware/resolver.minRRSetTTL#1")) * 1000000000
 //@   assert at call middleware/resolver.minCut#1: calls("time.Now") == 1
 //@   # "... and a 12 h ceiling": the lease handed on to the answer's cut, the descent and deeper delegations - not only
 //@   # the delegation cache's own entry - ends at most 12 h after the referral was observed
 //@   assert at call middleware/resolver.minCut#1: inst(arg2) <= inst(lastret("time.Now")) + 43200000000000
 //@   assert at call middleware/resolver.minRRSetTTL#1: arg0 == rs.parentDS
+//@   # "the smaller of the referral's NS and DS TTLs": the DS set of the REFERRAL ITSELF (owner = the delegated name,
+//@   # taken from the referral's authority section) bounds the lease whether or not validation retained a DS -
+//@   # a checking-disabled resolution retains none
+//@   assert at call middleware/resolver.minCut#1: len(lastret("internal/dnsutil.ExtractRRSet")) > 0 && lastret("middleware/resolver.minRRSetTTL#2") <= 2147483647 ==> inst(arg2) <= inst(lastret("time.Now")) + int64(lastret("middleware/resolver.minRRSetTTL#2")) * 1000000000
+//@   assert at call middleware/resolver.minRRSetTTL#2: arg0 == lastret("internal/dnsutil.ExtractRRSet")
+//@   assert at call internal/dnsutil.ExtractRRSet#1: arg0 == resp.Ns && arg1 == q.Name && len(arg2) == 1 && arg2[0] == dns.TypeDS
 //@   assert at call middleware/resolver.noteCut#1: arg1 == lastret("middleware/resolver.minCut") && arg2 == lastret("middleware/resolver.minCut", 1)
 //@   assert at call (*internal/authority.Cache).SetUntil#1: arg1 == key && arg4 == lastret("middleware/resolver.minCut")
 //@   assert at call (*middleware/resolver.Resolver).lookupV4Nss#1: arg4 == key && arg9 == lastret("middleware/resolver.minCut")
